@@ -117,10 +117,12 @@ func (state *IntraAnalysisState) DoExtract(x *ssa.Extract) {
 	// - lookup instructions
 	// Since next, select, lookup instructions are not nodes in the graph, we have to be careful about
 	// how extract interacts with them.
-	isUntrackedTuple := false
+	// Only the tuple of a call is indexed by the marks of the call's results. Every other tuple (next, select, lookup,
+	// and comma-ok type assertions and receives) carries the marks of its operand whatever their index.
+	isUntrackedTuple := true
 	switch x.Tuple.(type) {
-	case *ssa.Next, *ssa.Select, *ssa.Lookup:
-		isUntrackedTuple = true
+	case *ssa.Call:
+		isUntrackedTuple = false
 	}
 	if isUntrackedTuple {
 		transfer(state, x, x.Tuple, x, "", NonIndexMark)
